@@ -293,7 +293,8 @@ class FormatMachine(MachineBase):
             diff = first_diff(d["expected"], got)
             self.count(P, ["restart", via, self.abstract_expected(d["expected"])])
             if diff:
-                raise Violation(P, "%s.restart_equals_written" % P, "restart-differs/%s/%s" % (self.FORMAT, diff_key(diff)),
+                P2 = self.prop_for_diff(diff)
+                raise Violation(P2, "%s.restart_equals_written" % P2, "restart-differs/%s/%s" % (self.FORMAT, diff_key(diff)),
                                 {"diff": diff, "via": via})
             try:
                 text = self.redump(new, d)
@@ -302,7 +303,7 @@ class FormatMachine(MachineBase):
                     raise
                 raise Violation(P, "%s.reloaded_object_dumps" % P, "redump-raises/%s/%s" % (self.FORMAT, exc_class(e)),
                                 {"error": exc_class(e), "msg": str(e)[:200]})
-            if text.encode("utf-8") != d["bytes"]:
+            if text.encode("utf-8") != d["bytes"] and not d.get("lossy"):
                 raise Violation(P, "%s.redump_byte_identical" % P, "redump-differs/%s" % self.FORMAT,
                                 {"diff": _text_diff(d["bytes"].decode("utf-8", "replace"), text)})
             s.obj = new
@@ -324,6 +325,11 @@ class FormatMachine(MachineBase):
 
     def redump(self, new, d):
         return new.dumps()
+
+    def prop_for_diff(self, diff):
+        """Which property a restart difference belongs to (several properties may cover the same fact;
+        the run's focus decides, so that neither check loses the detection)."""
+        return self.ROUNDTRIP_PROP
 
     # ---- C05: the durable state was written by an older incarnation of the software ------------------
     HEADER_TYPE = None
